@@ -56,7 +56,7 @@ FAULT_PROBES = {"runner_killed": "runner_killed", "output_file_torn": "output_to
                 "runners_overlapped": "runners_overlapped"}
 # a small share of the runs is repeated by fresh interpreters started with `python -O` (assert statements stripped)
 INTERP_VARIANTS = [{"flags": ["-O"], "runs": {"quick": 160, "thorough": 3000}, "what": "python -O (assert statements stripped from the code under test)"}]
-PROBES = ["prep_refuses_an_item", "program_cannot_be_started", "job_without_return_files", "hash_comparison_switched_off_by_caller", "cache_hit_valid", "cache_other_tag", "cache_failed_rc", "cache_success_flag_but_missing_file", "cache_unreadable", "destination_only_key",
+PROBES = ["fresh_destination_with_the_old_cache", "prep_refuses_an_item", "program_cannot_be_started", "job_without_return_files", "hash_comparison_switched_off_by_caller", "cache_hit_valid", "cache_other_tag", "cache_failed_rc", "cache_success_flag_but_missing_file", "cache_unreadable", "destination_only_key",
           "item_already_in_destination", "vectorised_partly_cached", "runner_killed", "output_torn", "interrupt_prepare", "interrupt_submit",
           "interrupt_wait", "interrupt_finalise", "tag_changed_between_calls", "fail_after_writing_return_file", "closing_call_completed", "idempotent_call_checked", "runners_overlapped", "driver_with_envars"]
 
@@ -111,6 +111,10 @@ def gen_plan(r, tier, index):
             call["verbose"] = True
         if ci and r.random() < 0.1:
             call["lenient_hash"] = True
+        if ci and r.random() < 0.15:
+            # this call maps into a FRESH, empty destination library while the cache directory stays: everything that has a
+            # valid cached output is taken from there (nothing runs again), everything else runs
+            call["new_destination"] = True
         if ci and r.random() < 0.15:
             # the job's prep() refuses one of the items under this call's arguments (an exception from user code): whether
             # jobmap gives up or skips the item, nothing may be run or stored for it.  (Mostly together with a change of
@@ -292,6 +296,11 @@ def run_plan(plan, trace=False):
         had_reuse = False
         for ci, call in enumerate(calls + closing):
             tag = call["tag"]
+            if call.get("new_destination"):
+                dst_path = os.path.join(root, f"dest_{ci}.lib")
+                dst = Lib(dst_path, readonly=False)
+                model_dest = {}
+                res.stats["probe:fresh_destination_with_the_old_cache"] += 1
             if prev_tag is not None and tag != prev_tag:
                 res.stats["probe:tag_changed_between_calls"] += 1
             prev_tag = tag
